@@ -106,7 +106,7 @@ static void checkProgram(xrun::Runner &R, const std::string &src, const std::str
 }
 
 int main(int argc, char **argv) {
-  ctx = parse_args("C15", argc, argv, 240, 1700);
+  ctx = parse_args("C15", argc, argv, 400, 1700);
   Report rep; rep.ctx = ctx;
   if (!ctx.replayPath.empty()) {
     JV v; if (!jparse(slurp(ctx.replayPath), v)) harness_fail("cannot parse replay");
